@@ -10,6 +10,7 @@ package c14
 import (
 	"fmt"
 	"hash/fnv"
+	"net"
 	"sort"
 	"strings"
 	"testing"
@@ -41,11 +42,14 @@ type MapEntry struct {
 // Op is one configuration-building operation.
 type Op struct {
 	// Kind: list | map | ids | and | except | withnew | without
-	Kind  string     `json:"kind"`
-	Raw   bool       `json:"raw,omitempty"` // through the raw API instead of the generated one
-	A     int        `json:"a,omitempty"`   // operand configuration (index modulo existing)
-	B     int        `json:"b,omitempty"`
-	Addrs []int      `json:"addrs,omitempty"`
+	Kind  string `json:"kind"`
+	Raw   bool   `json:"raw,omitempty"` // through the raw API instead of the generated one
+	A     int    `json:"a,omitempty"`   // operand configuration (index modulo existing)
+	B     int    `json:"b,omitempty"`
+	Addrs []int  `json:"addrs,omitempty"`
+	// Spell[i] is how list entry i is written: 0 canonical, 1 port with a leading zero, 2 as an
+	// IPv4-mapped IPv6 literal (all three name the same endpoint and resolve to the same address)
+	Spell []int      `json:"spell,omitempty"`
 	Map   []MapEntry `json:"map,omitempty"`
 	IDs   []uint32   `json:"ids,omitempty"`
 	IDRef []int      `json:"idref,omitempty"` // ids taken from the pool by index (modulo), appended to IDs
@@ -65,7 +69,12 @@ func gen(t *rapid.T) Case {
 		op := Op{Kind: k, Raw: rapid.IntRange(0, 3).Draw(t, "raw") == 0}
 		op.A = rapid.IntRange(0, 7).Draw(t, "a")
 		op.B = rapid.IntRange(0, 7).Draw(t, "b")
-		genList := func() { op.Addrs = rapid.SliceOfN(addrIdx, 0, 5).Draw(t, "addrs") }
+		genList := func() {
+			op.Addrs = rapid.SliceOfN(addrIdx, 0, 5).Draw(t, "addrs")
+			if rapid.IntRange(0, 3).Draw(t, "respell") == 0 {
+				op.Spell = rapid.SliceOfN(rapid.IntRange(0, 2), len(op.Addrs), len(op.Addrs)).Draw(t, "spell")
+			}
+		}
 		genMap := func() {
 			op.Map = rapid.SliceOfN(rapid.Custom(func(t *rapid.T) MapEntry {
 				return MapEntry{Addr: addrIdx.Draw(t, "addr"), ID: idGen.Draw(t, "id")}
@@ -160,13 +169,38 @@ type expect struct {
 	adds     map[uint32][]string // pool additions (per id the addresses this operation may register)
 }
 
-func (s *state) listOpt(addrs []int) (gorums.NodeListOption, expect) {
+// spelled writes the canonical address a in another way that names the same endpoint; it falls
+// back to a if the standard resolver does not agree that the spelling resolves to a.
+func spelled(a string, how int) string {
+	host, port, err := net.SplitHostPort(a)
+	if err != nil || how == 0 {
+		return a
+	}
+	sp := a
+	switch how {
+	case 1:
+		sp = host + ":0" + port
+	case 2:
+		sp = "[::ffff:" + host + "]:" + port
+	}
+	if r, err := net.ResolveTCPAddr("tcp", sp); err != nil || r.String() != a {
+		return a
+	}
+	return sp
+}
+
+func (s *state) listOpt(addrs []int, spell ...int) (gorums.NodeListOption, expect) {
 	var as []string
 	e := expect{adds: map[uint32][]string{}}
 	byID := map[uint32]string{}
-	for _, i := range addrs {
+	for k, i := range addrs {
 		a := addrPool[i%len(addrPool)]
-		as = append(as, a)
+		if k < len(spell) {
+			// the list names the endpoint in another spelling; the node is the one of the resolved address
+			as = append(as, spelled(a, spell[k]))
+		} else {
+			as = append(as, a)
+		}
 		id := fnv32a(a)
 		if prev, ok := byID[id]; ok && prev != a {
 			e.mustFail = fmt.Sprintf("addresses %s and %s generate the same id %d", prev, a, id)
@@ -334,7 +368,7 @@ func run(c Case) vt.Verdict {
 		useRaw := op.Raw
 		switch op.Kind {
 		case "list":
-			opt, e = s.listOpt(op.Addrs)
+			opt, e = s.listOpt(op.Addrs, op.Spell...)
 			if hasDupInts(op.Addrs) {
 				classes["duplicate-address"] = true
 			}
@@ -385,7 +419,7 @@ func run(c Case) vt.Verdict {
 			case "ids":
 				inner, ie = s.idsOpt(s.resolveIDs(op))
 			default:
-				inner, ie = s.listOpt(op.Addrs)
+				inner, ie = s.listOpt(op.Addrs, op.Spell...)
 			}
 			e = expect{want: union(a.ids, ie.want), mustFail: ie.mustFail, mayFail: ie.mayFail, adds: ie.adds}
 			opt = a.raw.WithNewNodes(inner)
